@@ -4,6 +4,7 @@ package main
 // config, so it is reached through a linkname in a child process of this binary (see childMain).
 
 import (
+	"math"
 	"math/rand"
 	_ "unsafe" // go:linkname
 
@@ -126,6 +127,18 @@ func cliCases(r *rand.Rand, tier string) []string {
 		cfg := cfgOf("absent")
 		m.f(cfg)
 		out = append(out, cliLine("unknown", m.path, "reject", cfg, false))
+	}
+	// numbers the option's type cannot hold, as a YAML file gives them (an integer above MaxInt64 arrives as uint64, 1e30 as float64)
+	{
+		cfg := cfgOf("absent")
+		cfg["pools"].([]any)[0].(map[string]any)["gun"].(map[string]any)["dial"] = map[string]any{"timeout": uint64(10000000000000000000)}
+		out = append(out, cliLine("number", "/pools[0]/gun/dial/timeout=1e19", "reject", cfg, false))
+		cfg2 := cfgOf("absent")
+		cfg2["pools"].([]any)[0].(map[string]any)["gun"].(map[string]any)["max-idle-conns"] = 1e30
+		out = append(out, cliLine("number", "/pools[0]/gun/max-idle-conns=1e30", "reject", cfg2, false))
+		cfg3 := cfgOf("absent")
+		cfg3["pools"].([]any)[0].(map[string]any)["gun"].(map[string]any)["max-idle-conns"] = math.MaxInt64
+		out = append(out, cliLine("number", "/pools[0]/gun/max-idle-conns=maxint64", "accept", cfg3, false))
 	}
 	// placeholders through the CLI reader
 	{
